@@ -63,7 +63,8 @@ AnyState   == {"NOOP", "CHECK", "LOGOUT", "CAPABILITY"}
 \* "STARTTLS-PIPED": the STARTTLS line with further commands (LOGIN, SELECT, ...) appended in the same
 \* segment, i.e. plaintext that reaches the server before the TLS handshake (C17 / RFC 3207 section 6)
 \* "AUTHENTICATE-X": AUTHENTICATE with a mechanism other than PLAIN (XTEST) and an initial response
-NotAuthCmds == {"STARTTLS", "STARTTLS-PIPED", "LOGIN", "AUTHENTICATE", "AUTHENTICATE-CANCEL", "AUTHENTICATE-X"}
+\* "AUTHENTICATE-CONT": AUTHENTICATE PLAIN without initial response; the credentials follow the continuation request
+NotAuthCmds == {"STARTTLS", "STARTTLS-PIPED", "LOGIN", "AUTHENTICATE", "AUTHENTICATE-CANCEL", "AUTHENTICATE-X", "AUTHENTICATE-CONT"}
 AuthCmds   == {"ENABLE", "CREATE", "DELETE", "RENAME", "SUBSCRIBE", "UNSUBSCRIBE", "STATUS",
                "LIST", "LSUB", "NAMESPACE", "IDLE", "SELECT", "EXAMINE", "APPEND",
                "UNAUTHENTICATE"}
@@ -73,7 +74,7 @@ SelCmds    == {"CLOSE", "UNSELECT", "EXPUNGE", "UID EXPUNGE", "FETCH", "UID FETC
 Cmds == AnyState \cup NotAuthCmds \cup AuthCmds \cup SelCmds \cup {"XUNKNOWN"}
 
 \* one representative per command family (used for depth-bounded enumeration)
-FamilyCmds == {"NOOP", "LOGOUT", "STARTTLS", "STARTTLS-PIPED", "LOGIN", "AUTHENTICATE-CANCEL", "AUTHENTICATE-X", "UNAUTHENTICATE",
+FamilyCmds == {"NOOP", "LOGOUT", "STARTTLS", "STARTTLS-PIPED", "LOGIN", "AUTHENTICATE-CANCEL", "AUTHENTICATE-X", "AUTHENTICATE-CONT", "UNAUTHENTICATE",
                "ENABLE", "STATUS", "IDLE", "SELECT", "APPEND", "CLOSE", "UNSELECT", "UID FETCH",
                "MOVE", "XUNKNOWN"}
 
@@ -210,6 +211,17 @@ AuthX(f) ==
      ELSE Result(IF f = 0 THEN "auth" ELSE state, tls, enabled, closed, <<Call("Authenticate")>>,
                  Out(IF f = 0 THEN OK ELSE NOTOK, FALSE, 0, FALSE))
 
+\* AUTHENTICATE PLAIN without initial response, the client answers the continuation request with its credentials:
+\* whether they are accepted is the backend's decision, exactly as with an initial response
+AuthCont(f) ==
+  /\ Alive /\ f \in 0..1
+  /\ IF ~CanAuth THEN Refuse
+     ELSE IF ~Sasl THEN Result(IF f = 0 THEN "auth" ELSE state, tls, enabled, closed, <<Call("Login")>>,
+                               Out(IF f = 0 THEN OK ELSE NOTOK, FALSE, 1, FALSE))
+     \* a session with its own mechanisms is asked for the mechanism first (no continuation request if it refuses)
+     ELSE Result(IF f = 0 THEN "auth" ELSE state, tls, enabled, closed, <<Call("Authenticate")>>,
+                 Out(IF f = 0 THEN OK ELSE NOTOK, FALSE, IF f = 0 THEN 1 ELSE 0, FALSE))
+
 \* AUTHENTICATE PLAIN without initial response, client cancels with "*":
 \* a continuation request is sent only if the server is willing to authenticate (and, with a session that has
 \* its own mechanisms, once that session has accepted the mechanism).
@@ -282,6 +294,7 @@ Good(c, f) ==
   \/ Login(c, f)
   \/ c = "AUTHENTICATE-CANCEL" /\ AuthCancel(f)
   \/ c = "AUTHENTICATE-X" /\ AuthX(f)
+  \/ c = "AUTHENTICATE-CONT" /\ AuthCont(f)
   \/ c = "UNAUTHENTICATE" /\ Unauthenticate(f)
   \/ f = 0 /\ c = "ENABLE" /\ Enable("IMAP4rev2")
   \/ c = "IDLE" /\ Idle(f)
